@@ -773,7 +773,7 @@ func (fc *FnCtx) specCall(env *SpecEnv, e *SCall) Val {
 					for i := range e.Args {
 						a := fc.specEval(env, e.Args[i])
 						if i < sig.Params().Len() {
-							a.Ty = sig.Params().At(i).Type()
+							a = fc.specArgAs(env, a, sig.Params().At(i).Type())
 						}
 						as = append(as, a)
 					}
@@ -809,7 +809,7 @@ func (fc *FnCtx) specCall(env *SpecEnv, e *SCall) Val {
 								a := fc.specEval(env, e.Args[i])
 								if i < sig.Params().Len() {
 									if _, isTP := types.Unalias(sig.Params().At(i).Type()).(*types.TypeParam); !isTP {
-										a.Ty = sig.Params().At(i).Type()
+										a = fc.specArgAs(env, a, sig.Params().At(i).Type())
 									}
 								}
 								as = append(as, a)
@@ -1158,4 +1158,20 @@ func (fc *FnCtx) undefinedLocal(st *State, name string) (Val, bool) {
 		return Val{}, false
 	}
 	return fc.freshVal(st, "undef_"+name, found[0].Type()), true
+}
+
+// specArgAs converts a spec argument to a parameter type: a non-interface value passed for an interface parameter
+// is boxed exactly as the executable code boxes it.
+func (fc *FnCtx) specArgAs(env *SpecEnv, a Val, pt types.Type) Val {
+	if a.Ty != nil {
+		if _, isIface := pt.Underlying().(*types.Interface); isIface {
+			if _, already := a.Ty.Underlying().(*types.Interface); !already {
+				if b, ok := a.Ty.(*types.Basic); !ok || b.Kind() != types.UntypedNil {
+					return fc.box(env.state(), a, pt)
+				}
+			}
+		}
+	}
+	a.Ty = pt
+	return a
 }
